@@ -666,8 +666,22 @@ Lemma kw_literals_ok :
   /\ kw_grmtools = lit "%grmtools".
 Proof. repeat split; reflexivity. Qed.
 
+(* the span recorded for an action whose braces open at pos_action_start - 1 and whose
+   trimmed text is [a].  As it is: Span::new(pos_action_start, pos_action_start + a.len()).
+   Proposed repair ([fixed_aspan]):
+     let raw = &self.src[pos_action_start..];
+     let lead = raw.len() - raw.trim_start().len();
+     Span::new(pos_action_start + lead, pos_action_start + lead + a.len()) *)
+Definition action_span (fixed_aspan : bool) (src : str) (pos_action_start : nat) (a : str) : outcome span :=
+  if fixed_aspan then
+    do raw <- slice_from src pos_action_start;
+    let lead := byte_len raw - byte_len (trim_start raw) in
+    mk_span (pos_action_start + lead) (pos_action_start + lead + byte_len a)
+  else mk_span pos_action_start (pos_action_start + byte_len a).
+
 Section Parser.
-Variable fixed : bool.
+Variable fixed : bool.        (* proposed repair of the block-comment scan *)
+Variable fixed_aspan : bool.  (* proposed repair of the action span: skip the blanks after the brace *)
 Variable kind : ykind.     (* self.yacc_kind *)
 Variable src : str.
 Variable len : nat.
@@ -1019,7 +1033,7 @@ Fixpoint rule_loop (f : nat) (st : pst) (rn : str) (i : nat) (syms : list symbol
         bind st, t <- lift_nn st (parse_action src len fuel (nn st) i);
         let '(j, a) := t in
         bind st, i' <- ws st j true;
-        bind st, asp <- lifto st (mk_span pos_action_start (pos_action_start + byte_len a));
+        bind st, asp <- lifto st (action_span fixed_aspan src pos_action_start a);
         bind st, t1 <- look st kw_bar i';
         bind st, t2 <- (if is_some t1 then ret st t1 else look st kw_semi i');
         if negb (is_some t2) then fail st ProductionNotTerminated i'
@@ -1301,13 +1315,14 @@ Inductive top :=
 
 Definition fuel_for (src : str) : nat := S (byte_len src).
 
-Definition yacc_new_gen (fixed : bool) (fuel : nat) (kind : ykind) (src : str) : outcome top :=
+Definition yacc_new_gen (fixed fixed_aspan : bool) (fuel : nat) (kind : ykind) (src : str) : outcome top :=
   if header_present src then Done THeader else
-  do r <- parse fixed kind src (byte_len src) fuel;
+  do r <- parse fixed fixed_aspan kind src (byte_len src) fuel;
   let '(st, es) := r in
   do v <- complete_and_validate (ast st);
   Done (TResult (ast st) (es ++ match v with Some e => [e] | None => [] end) (warnings (ast st))).
 
-Definition yacc_new := yacc_new_gen false.
-Definition run_case (fixed : bool) (kind : ykind) (src : str) : outcome top :=
-  yacc_new_gen fixed (fuel_for src) kind src.
+(* the code as it is *)
+Definition yacc_new := yacc_new_gen false false.
+Definition run_case (fixed fixed_aspan : bool) (kind : ykind) (src : str) : outcome top :=
+  yacc_new_gen fixed fixed_aspan (fuel_for src) kind src.
